@@ -125,6 +125,12 @@ def judge(args):
     i = {"doc": case.get("idoc", "one"), "params": case["ps"], "ret": {"typ": "none", "def": "absent", "doc": "absent"}}
     salt = conv.salt_of({"cfg": cfg, "i": i}, seed)
     ir = g.iface(i, salt)
+    # the SPELLING of a type is not part of the interface: a third of the cases carry their string constants in double quotes
+    # (`Literal["a", "b"]`, as hand-written or JSON-borne descriptions do); what the emitted code exposes must not depend on it
+    if salt % 3 == 1:
+        for entry in ir["params"].values():
+            if isinstance(entry.get("typ"), str):
+                entry["typ"] = entry["typ"].replace("'", '"')
     names = list(ir["params"].keys())
     res = {"diffs": [], "src": None}
     try:
